@@ -235,7 +235,7 @@ func init() {
 	ext("runtime.Callers", func(fr *frame, a []value) value { return 0 })
 	ext("runtime.Caller", func(fr *frame, a []value) value { return tuple{uintptr(0), "", 0, false} })
 	ext("runtime.Stack", func(fr *frame, a []value) value { return 0 })
-	ext("runtime.Goexit", func(fr *frame, a []value) value { panic(unsupported{"runtime.Goexit"}) })
+	ext("runtime.Goexit", func(fr *frame, a []value) value { panic(unsupported{reason: "runtime.Goexit"}) })
 	ext("runtime.FuncForPC", extNop)
 	ext("runtime.ReadMemStats", extNop)
 	ext("os.Getenv", func(fr *frame, a []value) value { return "" })
@@ -558,6 +558,11 @@ func init() {
 	})
 	ext("(*sync.Map).Clear", func(fr *frame, a []value) value { smap(fr, a[0]).clear(); return nil })
 
+	for _, n := range []string{"sync.runtime_registerPoolCleanup", "sync.runtime_notifyListCheck", "sync.throw", "sync.fatal",
+		"internal/sync.runtime_registerPoolCleanup", "sync.runtime_registerUniqueMapCleanup"} {
+		ext(n, extNop)
+	}
+
 	// ---- sync/atomic ------------------------------------------------------------------------
 	for _, ty := range []struct {
 		name string
@@ -663,6 +668,7 @@ func init() {
 	})
 	ext("time.runtimeNano", func(fr *frame, a []value) value { return int64(fr.i.sch.now - virtualEpoch + 1) })
 	ext("time.runtimeNow", externals["time.now"])
+	ext("time.runtimeIsBubbled", func(fr *frame, a []value) value { return false })
 	ext("time.Sleep", func(fr *frame, a []value) value {
 		d := fr.i.durArg(a[0])
 		fr.i.sleep(d)
@@ -707,7 +713,7 @@ func init() {
 	reset := func(fr *frame, a []value) value {
 		t := fr.i.side.timers[a[0].(*value)]
 		if t == nil {
-			panic(unsupported{"Reset of unknown timer"})
+			panic(unsupported{reason: "Reset of unknown timer"})
 		}
 		d := fr.i.concInt(a[1])
 		was := t.active
@@ -811,6 +817,21 @@ func init() {
 	ext("github.com/pkg/errors.Is", externals["errors.Is"])
 	ext("github.com/pkg/errors.As", externals["errors.As"])
 
+	// ---- context ---------------------------------------------------------------------------------------
+	ext("context.WithValue", func(fr *frame, a []value) value {
+		parent := a[0].(iface)
+		if parent.t == nil {
+			panic(targetPanic{msg: "cannot create context from nil parent"})
+		}
+		if a[1].(iface).t == nil {
+			panic(targetPanic{msg: "nil key"})
+		}
+		pkg := fr.i.prog.ImportedPackage("context")
+		t := pkg.Type("valueCtx").Type()
+		var v value = structure{parent, a[1], a[2]}
+		return iface{t: types.NewPointer(t), v: &v}
+	})
+
 	// ---- fmt -----------------------------------------------------------------------------------------------
 	ext("fmt.Sprintf", func(fr *frame, a []value) value { return sprintfModel(a[0], a[1].([]value)) })
 	ext("fmt.Sprint", func(fr *frame, a []value) value { return sprintModel(a[0].([]value)) })
@@ -844,14 +865,14 @@ func flt(v value) float64 {
 	case float32:
 		return float64(v)
 	case *sym:
-		panic(unsupported{"float: symbolic floating-point operand"})
+		panic(unsupported{reason: "float: symbolic floating-point operand"})
 	}
 	panic(fmt.Sprintf("flt(%T)", v))
 }
 
 func u64c(v value) uint64 {
 	if _, ok := v.(*sym); ok {
-		panic(unsupported{"float: symbolic bits to float"})
+		panic(unsupported{reason: "float: symbolic bits to float"})
 	}
 	return scalarTerm(v).val
 }
@@ -922,7 +943,7 @@ func errorsIs(fr *frame, err, target iface, depth int) value {
 		return err.t == nil && target.t == nil
 	}
 	if depth > 50 {
-		panic(unsupported{"errors.Is: chain too deep"})
+		panic(unsupported{reason: "errors.Is: chain too deep"})
 	}
 	comparable := types.Comparable(target.t)
 	for {
@@ -1087,7 +1108,7 @@ func (st *sideTables) sleptTerm() *term {
 func (in *interpreter) timeValue(ns int64) value {
 	pkg := in.prog.ImportedPackage("time")
 	if pkg == nil {
-		panic(unsupported{"time package not loaded"})
+		panic(unsupported{reason: "time package not loaded"})
 	}
 	return call(in, nil, token.NoPos, pkg.Func("Unix"), []value{int64(ns / 1e9), int64(ns % 1e9)})
 }
